@@ -100,11 +100,12 @@ Section Gzip.
   Definition encode_gzip (data : list Z) : list Z :=
     encode_uint32 c_GZIPTypeID ++ encode_bytes (gzip data).
 
-  (* what io.ReadAll(countReader(LimitReader(r, max))) returns: data and whether a
+  (* the LimitReader argument is generated from the source (limit_reader_arg_go).
+     what io.ReadAll(countReader(LimitReader(r, max))) returns: data and whether a
      decompression error was seen (it is not seen once the limit cut the stream) *)
   Definition gzip_read (buf : list Z) : list Z * bool :=
     let '(stream, serr) := gz_stream buf in
-    (take_z c_maxUncompressedSize stream, serr && (len stream <? c_maxUncompressedSize)).
+    (take_z limit_reader_arg_go stream, serr && (len stream <? limit_reader_arg_go)).
 
   Definition gzip_outcome (head_ok : bool) (data : list Z) (err_seen : bool) : res p_err (list Z) :=
     if negb head_ok then Err PGzipHeader
